@@ -1,4 +1,5 @@
 """C19 - client endpoint: always ack, dispatch once, reliable sends complete on ack only."""
+import asyncio
 import types
 from collections import Counter
 
@@ -78,6 +79,7 @@ class Harness:
         self.peer = {}                   # peer pid -> dict(name, reliable)
         self.peer_next = 1
         self.delayed = []
+        self.use_client_loop = False
         self.waiters = {}
         self.rejecting = []
         self.seen_emitted = 0
@@ -322,9 +324,36 @@ class Harness:
         out.extend(self._check_futures())
         return out
 
+    def _client_resend_pass(self):
+        """one pass of the client's own polling routine (HippoClient._attempt_resends) over the session's regions"""
+        import types as _types
+        from hippolyzer.lib.client.hippo_client import HippoClient
+        loop = c05._ensure_loop()
+        task = loop.create_task(HippoClient._attempt_resends(_types.SimpleNamespace(session=self.session)))
+        loop.run_until_complete(asyncio.sleep(0))
+        task.cancel()
+        loop.run_until_complete(asyncio.sleep(0))
+
+    def ev_dead_region_first(self):
+        """the session also knows a neighbour whose circuit is not alive, listed before the region under test"""
+        if self.use_client_loop or not self.circuit.is_alive:
+            return None
+        other = ("10.0.0.2", 13001)
+        r = self.session.register_region(other, "http://127.0.0.1:1/seed2", 1001)
+        self.session.open_circuit(other)
+        r.circuit.is_alive = False
+        self.session.regions.remove(r)
+        self.session.regions.insert(0, r)
+        self.use_client_loop = True
+        self.flags.add("dead_region_listed_first")
+        return []
+
     def ev_tick(self, seconds):
         c05._CLOCK.advance(seconds)
-        self.circuit.resend_unacked()
+        if self.use_client_loop:
+            self._client_resend_pass()
+        else:
+            self.circuit.resend_unacked()
         em = self._new_emissions()
         out = []
         expected = []
@@ -404,6 +433,8 @@ class Harness:
             r = self.ev_ack(ev[1], ev[2])
         elif k == "csend":
             r = self.ev_client_send(ev[1])
+        elif k == "dead_region_first":
+            r = self.ev_dead_region_first()
         elif k == "peer_zero":
             # the peer numbers its packets from 0 (hippolyzer's own endpoints do) instead of 1
             if self.peer or self.delayed:
@@ -525,7 +556,7 @@ EV = st.one_of(
     st.tuples(st.just("noise"), st.sampled_from(["malformed", "banned", "unknown_host"])),
 )
 WALK = st.tuples(st.booleans(), st.lists(EV, min_size=3, max_size=150), st.integers(0, 2)).map(
-    lambda t: (t[0], ([("peer_zero",)] if t[2] == 0 else []) + list(t[1])))
+    lambda t: (t[0], ([("peer_zero",)] if t[2] == 0 else []) + ([("dead_region_first",)] if t[2] == 1 else []) + list(t[1])))
 
 
 def run_shard(ctx, shard):
